@@ -1,7 +1,7 @@
 """C11 — stdlib string, encoding, parsing and hashing functions match their definitions.
 
 Theorems: coq/theories/Common/Utf8.v + coq/theories/C11 (UTF-8 round trip / decoder soundness /
-prefix freedom; findSubstr's byte walk = the code-point definition; substr; split laws;
+prefix freedom / full self-synchronisation; findSubstr's byte walk = the code-point definition; substr; split byte search = code-point definition + laws; endsWith; strip;
 parse_nat classifier + exact accumulation below 2^53; codepoint/char; base64 round trip).
 Correspondence: generated calls std.<fn>(args) -> (a) evaluated by the real code through
 `jrharness eval` (batched arrays of calls; a failing batch is re-run call by call), (b) the Coq
